@@ -77,3 +77,22 @@ Proof. exact (tie_fuse_overlap k). Qed.
 Theorem C05_source_overlap_for_kernel k : gen_overlap_for_kernel k = overlap_for_kernel k.
 Proof. exact (tie_overlap k). Qed.
 Print Assumptions C05_source_overlap_covers_kernel.
+
+(* ---- composed with the block partition (C06): for EVERY block of the partition of the whole processing image, with the overlap fuse hands to
+        block_pairs, the fit on the block that was read equals the whole-image fit at every pixel of the block's output window; since the output
+        windows partition the image, the parameter image assembled block by block IS the whole-image parameter image, for any block shape *)
+From HV Require Import Kernel.Blockwise.
+Theorem C05_blocking_transparent b kh kw bs rc md na nb thresh cfill i j :
+  1 <= kh /\ kh mod 2 = 1 -> 1 <= kw /\ kw mod 2 = 1 -> 0 < fst bs /\ 0 < snd bs -> 0 <= bH b /\ 0 <= bW b ->
+  In rc (proc_blocks2 (whole b) bs (kernel_overlap kh kw)) -> in_win (out_of rc) i j ->
+  oparams_eqv (fit_px md b kh kw na nb thresh cfill i j) (fit_px md (block_image b rc) kh kw na nb thresh cfill i j).
+Proof. intros A B C D. exact (blocking_transparent b kh kw A B bs C D rc md na nb thresh cfill i j). Qed.
+Theorem C05_blockwise_parameter_image_is_whole_image b kh kw bs md na nb thresh cfill i j :
+  1 <= kh /\ kh mod 2 = 1 -> 1 <= kw /\ kw mod 2 = 1 -> 0 < fst bs /\ 0 < snd bs -> 0 <= bH b /\ 0 <= bW b ->
+  0 <= i < bH b -> 0 <= j < bW b ->
+  exists rc, In rc (proc_blocks2 (whole b) bs (kernel_overlap kh kw)) /\ in_win (out_of rc) i j /\
+    oparams_eqv (fit_px md b kh kw na nb thresh cfill i j) (fit_px md (block_image b rc) kh kw na nb thresh cfill i j) /\
+    forall rc', In rc' (proc_blocks2 (whole b) bs (kernel_overlap kh kw)) -> in_win (out_of rc') i j ->
+      oparams_eqv (fit_px md b kh kw na nb thresh cfill i j) (fit_px md (block_image b rc') kh kw na nb thresh cfill i j).
+Proof. intros A B C D. exact (blockwise_parameter_image_is_whole_image b kh kw A B bs C D md na nb thresh cfill i j). Qed.
+Print Assumptions C05_blockwise_parameter_image_is_whole_image.
